@@ -29,7 +29,11 @@
      (it cannot clear the spinlock bit while a wake_waiters of the model owns it), [MuDeq r] dequeues a transferred
      record from the mutex queue (nsync_remove_from_mu_queue_: remove_count + 1), [MuWakeSt r] is the unlocker's
      store waiting = 0 for such a record, [EnvV t] a post on thread t's semaphore (the unlocker's V; also any stale
-     post: the semaphore is shared with the thread's own mutex sleeps), [EnvRc r] the remove_count increment of a
+     post: the semaphore is shared with the thread's own mutex sleeps).  The two are COUPLED by the ghost counter
+     [owed]: nsync_mu_unlock_slow_ always posts right after clearing waiting (mu.c: ATM_STORE_REL (&w->nw.waiting, 0);
+     nsync_mu_semaphore_v (&w->sem)), so [MuWakeSt r] records a post owed to the owner of r and [EnvV t] pays an owed
+     post first (it is a stale post only when nothing is owed); theorems about quiescent worlds can thus exclude
+     "owed but never posted".  [EnvRc r] is the remove_count increment of a
      mutex-internal dequeue of a thread blocked inside an abstract acquisition (or, between two calls of its program,
      on some other nsync_mu; [EnvP t] is the P of such a sleep).  A thread inside an abstract
      acquisition may consume posts of its semaphore (choice [CIntP]: the P of nsync_mu_lock_slow_).
@@ -44,7 +48,12 @@
    * Ghost state (used by the theorems only, never read by a step): [live] and [dead_touch] (accesses to records of
      returned nsync_wait_n calls), [taker] (who unlinked a record from the cv queue), [loc] (on which list a record
      is: cv queue / private list of waker t / mutex queue / dequeued by an unlocker / none), [held], [rets] (log of
-     the returns with the facts C04_outcome / C05 talk about), [mspin], and in the locals w_entry, w_toclk, w_pafter.
+     the returns with the facts C04_outcome / C05 talk about), [mspin], [owed], [wlog] (log of the completed
+     signal / broadcast calls), in the locals w_entry, w_toclk, w_pafter, and in the waker's locals k_q .. k_posts.
+   * [touch] / [touch_all] mark every step that really accesses a record (for records of nsync_wait_n calls; the
+     per-thread waiter structs are never freed).  wake_waiters reads p_nw->sem BEFORE it stores waiting = 0 and never
+     accesses *p_nw afterwards: the step [VStore] captures the semaphore's owner in the pc [VV k o] and [VV] touches
+     nothing.  (A model that read the owner in [VV] -- the code before the repair of F3 -- violates dead_touch = 0.)
    * The semaphore of a thread is shared by its cv sleeps and its mutex sleeps (one waiter struct per thread), so
      the model lets the environment post it ([EnvV]) at any time; a consumed post is always a step of its owner.
    No proofs in this file. *)
@@ -105,7 +114,14 @@ Record kl := mk_kl {
   k_allr : bool;          (* all_readers *)
   k_todo : list nat;      (* selected native records whose remove_count is still to be incremented *)
   k_first : bool;         (* the next remove_count site is the one of the first waiter (nsync_cv_signal) *)
-  k_set : Z               (* set_on_release *)
+  k_set : Z;              (* set_on_release *)
+  (* ghost: the history of this call, for the run-level theorems (never read by a step) *)
+  k_q : list nat;         (* pcv->waiters at the CAS that acquired the cv spinlock *)
+  k_rdrs : list nat;      (* the native readers among them (flags & MUCV, l_type == reader) at that moment *)
+  k_taken : list nat;     (* the records this call unlinked from pcv->waiters *)
+  k_xfer : list nat;      (* of those: handed to the mutex queue by wake_waiters (cv_mu = NULL) *)
+  k_woken : list nat;     (* of those: waiting = 0 stored by wake_waiters, in order *)
+  k_posts : list nat      (* the threads whose semaphore wake_waiters has posted, in order *)
 }.
 (* an nsync_wait_n call on the cv *)
 Record nl := mk_nl {
@@ -129,7 +145,7 @@ Inductive pc :=
 | WMuAcq (l : wl)                                                  (* ABSTRACT *)
 | KLoadW (bc : bool) | KRcLoad (k : kl) | KRcCas (k : kl) (old : Z) | KStoreW (k : kl)
 | VLoad1 (k : kl) | VCas1 (k : kl) (old : Z) | VLoad3 (k : kl) | VCas2 (k : kl) (old : Z) | VLoad5 (k : kl)
-| VStore (k : kl) | VV (k : kl) (p : nat)
+| VStore (k : kl) | VV (k : kl) (o : nat)     (* o: the thread whose semaphore p_sem is (read BEFORE waiting = 0 was stored) *)
 | NEnqStore (n : nl) | NEnqRel (n : nl)
 | NMuRel (n : nl)                                                  (* ABSTRACT *)
 | NReady (n : nl) | NSem (n : nl) | NDeqLoad (n : nl) | NDeqStore (n : nl) | NDeqRel (n : nl) | NDeqSpin (n : nl)
@@ -173,7 +189,11 @@ Record world := mk_w {
   notified : bool;         (* the cancel note *)
   expiry : option Z;       (* its expiry *)
   thr : list tstate;
-  dead_touch : Z           (* ghost: accesses to a record whose nsync_wait_n call has returned (must stay 0) *)
+  dead_touch : Z;          (* ghost: accesses to a record whose nsync_wait_n call has returned (must stay 0) *)
+  owed : nat -> Z;         (* ghost, ABSTRACT mutex: posts the unlocker owes: it has cleared the waiting flag of a transferred waiter
+                              of thread u ([MuWakeSt]) and has not yet posted u's semaphore (mu.c: the V follows the store) *)
+  wlog : list (nat * kl)   (* ghost: the completed nsync_cv_signal / broadcast calls that got past the early exit: (thread, final
+                              locals with the ghost history), newest first *)
 }.
 
 Inductive actor :=
@@ -188,7 +208,7 @@ Inductive ev :=
 | EvLoad (site : Z) (obj : Z) (v : Z)
 | EvStore (site : Z) (obj : Z) (v : Z)
 | EvCas (site : Z) (obj : Z) (old new : Z) (ok : bool)
-| EvP (res : Z) | EvV (p : nat)
+| EvP (res : Z) | EvV (o : nat)          (* V on the semaphore of thread o *)
 | EvMu (acq : bool) (m : mode)
 | EvEnv (ok : bool)
 | EvBlocked | EvNone | EvCrash.
@@ -211,7 +231,7 @@ Definition dflt_t := mk_t Idle [] None [].
 Definition get (w : world) (t : nat) : tstate := nth t (thr w) dflt_t.
 
 Definition set_thr (w : world) (l : list tstate) : world :=
-  mk_w (cvw w) (cvq w) (recs w) (nrec w) (sem w) (muw w) (muq w) (mwake w) (mspin w) (clock w) (notified w) (expiry w) l (dead_touch w).
+  mk_w (cvw w) (cvq w) (recs w) (nrec w) (sem w) (muw w) (muq w) (mwake w) (mspin w) (clock w) (notified w) (expiry w) l (dead_touch w) (owed w) (wlog w).
 Definition set_t (w : world) (t : nat) (s : tstate) : world := set_thr w (lupd (thr w) t s).
 Definition set_pc (w : world) (t : nat) (p : pc) : world :=
   let s := get w t in set_t w t (mk_t p (t_ops s) (held s) (rets s)).
@@ -220,30 +240,36 @@ Definition set_held (w : world) (t : nat) (h : option mode) : world :=
 Definition add_ret (w : world) (t : nat) (r : ret) : world :=
   let s := get w t in set_t w t (mk_t (t_pc s) (t_ops s) (held s) (r :: rets s)).
 Definition set_cvw (w : world) (v : Z) : world :=
-  mk_w v (cvq w) (recs w) (nrec w) (sem w) (muw w) (muq w) (mwake w) (mspin w) (clock w) (notified w) (expiry w) (thr w) (dead_touch w).
+  mk_w v (cvq w) (recs w) (nrec w) (sem w) (muw w) (muq w) (mwake w) (mspin w) (clock w) (notified w) (expiry w) (thr w) (dead_touch w) (owed w) (wlog w).
 Definition set_cvq (w : world) (q : list nat) : world :=
-  mk_w (cvw w) q (recs w) (nrec w) (sem w) (muw w) (muq w) (mwake w) (mspin w) (clock w) (notified w) (expiry w) (thr w) (dead_touch w).
+  mk_w (cvw w) q (recs w) (nrec w) (sem w) (muw w) (muq w) (mwake w) (mspin w) (clock w) (notified w) (expiry w) (thr w) (dead_touch w) (owed w) (wlog w).
 Definition set_recs (w : world) (f : nat -> rec) : world :=
-  mk_w (cvw w) (cvq w) f (nrec w) (sem w) (muw w) (muq w) (mwake w) (mspin w) (clock w) (notified w) (expiry w) (thr w) (dead_touch w).
+  mk_w (cvw w) (cvq w) f (nrec w) (sem w) (muw w) (muq w) (mwake w) (mspin w) (clock w) (notified w) (expiry w) (thr w) (dead_touch w) (owed w) (wlog w).
 Definition set_rec (w : world) (r : nat) (x : rec) : world := set_recs w (fupd (recs w) r x).
 Definition set_nrec (w : world) (n : nat) : world :=
-  mk_w (cvw w) (cvq w) (recs w) n (sem w) (muw w) (muq w) (mwake w) (mspin w) (clock w) (notified w) (expiry w) (thr w) (dead_touch w).
+  mk_w (cvw w) (cvq w) (recs w) n (sem w) (muw w) (muq w) (mwake w) (mspin w) (clock w) (notified w) (expiry w) (thr w) (dead_touch w) (owed w) (wlog w).
 Definition set_sem (w : world) (t : nat) (v : Z) : world :=
-  mk_w (cvw w) (cvq w) (recs w) (nrec w) (fupd (sem w) t v) (muw w) (muq w) (mwake w) (mspin w) (clock w) (notified w) (expiry w) (thr w) (dead_touch w).
+  mk_w (cvw w) (cvq w) (recs w) (nrec w) (fupd (sem w) t v) (muw w) (muq w) (mwake w) (mspin w) (clock w) (notified w) (expiry w) (thr w) (dead_touch w) (owed w) (wlog w).
 Definition set_muw (w : world) (v : Z) : world :=
-  mk_w (cvw w) (cvq w) (recs w) (nrec w) (sem w) v (muq w) (mwake w) (mspin w) (clock w) (notified w) (expiry w) (thr w) (dead_touch w).
+  mk_w (cvw w) (cvq w) (recs w) (nrec w) (sem w) v (muq w) (mwake w) (mspin w) (clock w) (notified w) (expiry w) (thr w) (dead_touch w) (owed w) (wlog w).
 Definition set_muq (w : world) (q : list nat) : world :=
-  mk_w (cvw w) (cvq w) (recs w) (nrec w) (sem w) (muw w) q (mwake w) (mspin w) (clock w) (notified w) (expiry w) (thr w) (dead_touch w).
+  mk_w (cvw w) (cvq w) (recs w) (nrec w) (sem w) (muw w) q (mwake w) (mspin w) (clock w) (notified w) (expiry w) (thr w) (dead_touch w) (owed w) (wlog w).
 Definition set_mwake (w : world) (q : list nat) : world :=
-  mk_w (cvw w) (cvq w) (recs w) (nrec w) (sem w) (muw w) (muq w) q (mspin w) (clock w) (notified w) (expiry w) (thr w) (dead_touch w).
+  mk_w (cvw w) (cvq w) (recs w) (nrec w) (sem w) (muw w) (muq w) q (mspin w) (clock w) (notified w) (expiry w) (thr w) (dead_touch w) (owed w) (wlog w).
 Definition set_mspin (w : world) (o : option nat) : world :=
-  mk_w (cvw w) (cvq w) (recs w) (nrec w) (sem w) (muw w) (muq w) (mwake w) o (clock w) (notified w) (expiry w) (thr w) (dead_touch w).
+  mk_w (cvw w) (cvq w) (recs w) (nrec w) (sem w) (muw w) (muq w) (mwake w) o (clock w) (notified w) (expiry w) (thr w) (dead_touch w) (owed w) (wlog w).
 Definition set_clock (w : world) (c : Z) : world :=
-  mk_w (cvw w) (cvq w) (recs w) (nrec w) (sem w) (muw w) (muq w) (mwake w) (mspin w) c (notified w) (expiry w) (thr w) (dead_touch w).
+  mk_w (cvw w) (cvq w) (recs w) (nrec w) (sem w) (muw w) (muq w) (mwake w) (mspin w) c (notified w) (expiry w) (thr w) (dead_touch w) (owed w) (wlog w).
 Definition set_notified (w : world) (b : bool) : world :=
-  mk_w (cvw w) (cvq w) (recs w) (nrec w) (sem w) (muw w) (muq w) (mwake w) (mspin w) (clock w) b (expiry w) (thr w) (dead_touch w).
+  mk_w (cvw w) (cvq w) (recs w) (nrec w) (sem w) (muw w) (muq w) (mwake w) (mspin w) (clock w) b (expiry w) (thr w) (dead_touch w) (owed w) (wlog w).
 Definition set_dead (w : world) (d : Z) : world :=
-  mk_w (cvw w) (cvq w) (recs w) (nrec w) (sem w) (muw w) (muq w) (mwake w) (mspin w) (clock w) (notified w) (expiry w) (thr w) d.
+  mk_w (cvw w) (cvq w) (recs w) (nrec w) (sem w) (muw w) (muq w) (mwake w) (mspin w) (clock w) (notified w) (expiry w) (thr w) d (owed w) (wlog w).
+Definition set_owed (w : world) (t : nat) (v : Z) : world :=
+  mk_w (cvw w) (cvq w) (recs w) (nrec w) (sem w) (muw w) (muq w) (mwake w) (mspin w) (clock w) (notified w) (expiry w) (thr w) (dead_touch w)
+       (fupd (owed w) t v) (wlog w).
+Definition set_wlog (w : world) (l : list (nat * kl)) : world :=
+  mk_w (cvw w) (cvq w) (recs w) (nrec w) (sem w) (muw w) (muq w) (mwake w) (mspin w) (clock w) (notified w) (expiry w) (thr w) (dead_touch w)
+       (owed w) l.
 
 (* record field updates *)
 Definition r_set_waiting (x : rec) (v : Z) : rec := mk_rec (owner x) v (rcount x) (is_mucv x) (l_type x) (cv_mu x) (live x) (taker x) (loc x).
@@ -262,6 +288,11 @@ Definition touch (w : world) (r : nat) : world :=
   set_dead w (dead_touch w + (if live (recs w r) then 0 else 1)).
 Definition touch_all (w : world) (l : list nat) : world :=
   set_dead w (dead_touch w + fold_right (fun r a => (if live (recs w r) then 0 else 1) + a) 0 l).
+(* an operation on the list pcv->waiters under the cv spinlock: the nsync_dll_ functions read and write the links of the
+   neighbours of the element they insert / remove, cv_dequeue walks the list, nsync_cv_signal / broadcast read flags and
+   l_type of the elements they examine.  The model counts an access to EVERY record on the list at that moment (a
+   superset of what the code touches). *)
+Definition touch_queue (w : world) : world := touch_all w (cvq w).
 
 Definition wl_set_old (l : wl) (v : Z) : wl :=
   mk_wl (w_dl l) (w_can l) (w_gen l) (w_entry l) (w_rdr l) v (w_rc l) (w_so l) (w_out l) (w_toclk l) (w_pafter l).
@@ -276,10 +307,18 @@ Definition wl_set_out (l : wl) (v : Z) : wl :=
 Definition wl_inc_pafter (l : wl) : wl :=
   mk_wl (w_dl l) (w_can l) (w_gen l) (w_entry l) (w_rdr l) (w_old l) (w_rc l) (w_so l) (w_out l) (w_toclk l)
         (if w_so l =? 0 then w_pafter l else w_pafter l + 1).
-Definition kl_set_old (k : kl) (v : Z) : kl := mk_kl (k_bc k) v (k_wake k) (k_allr k) (k_todo k) (k_first k) (k_set k).
-Definition kl_set_wake (k : kl) (l : list nat) : kl := mk_kl (k_bc k) (k_old k) l (k_allr k) (k_todo k) (k_first k) (k_set k).
-Definition kl_next_todo (k : kl) : kl := mk_kl (k_bc k) (k_old k) (k_wake k) (k_allr k) (tl (k_todo k)) false (k_set k).
-Definition kl_set_xfer (k : kl) (l : list nat) (s : Z) : kl := mk_kl (k_bc k) (k_old k) l (k_allr k) (k_todo k) (k_first k) s.
+Definition kl_set_old (k : kl) (v : Z) : kl :=
+  mk_kl (k_bc k) v (k_wake k) (k_allr k) (k_todo k) (k_first k) (k_set k) (k_q k) (k_rdrs k) (k_taken k) (k_xfer k) (k_woken k) (k_posts k).
+Definition kl_next_todo (k : kl) : kl :=
+  mk_kl (k_bc k) (k_old k) (k_wake k) (k_allr k) (tl (k_todo k)) false (k_set k) (k_q k) (k_rdrs k) (k_taken k) (k_xfer k) (k_woken k) (k_posts k).
+(* wake_waiters: [moved] went to the mutex queue, [stay] is what is left of to_wake_list *)
+Definition kl_set_xfer (k : kl) (stay moved : list nat) (s : Z) : kl :=
+  mk_kl (k_bc k) (k_old k) stay (k_allr k) (k_todo k) (k_first k) s (k_q k) (k_rdrs k) (k_taken k) (k_xfer k ++ moved) (k_woken k) (k_posts k).
+(* wake_waiters: p was unlinked from to_wake_list ([rest] remains) and its waiting flag cleared *)
+Definition kl_wake_one (k : kl) (rest : list nat) (p : nat) : kl :=
+  mk_kl (k_bc k) (k_old k) rest (k_allr k) (k_todo k) (k_first k) (k_set k) (k_q k) (k_rdrs k) (k_taken k) (k_xfer k) (k_woken k ++ [p]) (k_posts k).
+Definition kl_add_post (k : kl) (o : nat) : kl :=
+  mk_kl (k_bc k) (k_old k) (k_wake k) (k_allr k) (k_todo k) (k_first k) (k_set k) (k_q k) (k_rdrs k) (k_taken k) (k_xfer k) (k_woken k) (k_posts k ++ [o]).
 Definition nl_set_old (n : nl) (v : Z) : nl := mk_nl (n_r n) (n_dl n) v (n_wasq n) (n_rel n).
 Definition nl_set_wasq (n : nl) (b : bool) : nl := mk_nl (n_r n) (n_dl n) (n_old n) b (n_rel n).
 Definition nl_set_rel (n : nl) (o : option mode) : nl := mk_nl (n_r n) (n_dl n) (n_old n) (n_wasq n) o.
@@ -379,6 +418,9 @@ Definition spin_set (k : spk) : Z :=
   match k with KWaitEnq _ => Z.lor CV_SPINLOCK CV_NON_EMPTY | _ => CV_SPINLOCK end.
 
 Definition enter_wake_loop (k : kl) : pc := match k_wake k with [] => Idle | _ => VStore k end.
+(* ghost: wake_waiters has nothing left to wake: the nsync_cv_signal / broadcast call returns; log it *)
+Definition wake_done (w : world) (t : nat) (k : kl) : world :=
+  match k_wake k with [] => set_wlog w ((t, k) :: wlog w) | _ => w end.
 Definition after_todo (k : kl) : pc := match k_todo k with [] => KStoreW k | _ => KRcLoad k end.
 Definition rc_site (k : kl) : Z := if k_bc k then 402 else if k_first k then 302 else 304.
 
@@ -386,19 +428,22 @@ Definition rc_site (k : kl) : Z := if k_bc k then 402 else if k_first k then 302
 Definition spin_done (w : world) (t : nat) (k : spk) (old : Z) : world :=
   match k with
   | KWaitEnq l =>
-      let w1 := upd_rec (set_cvq w (cvq w ++ [t])) t (fun x => r_move x None PCvq) in
+      let w1 := upd_rec (set_cvq (touch_queue w) (cvq w ++ [t])) t (fun x => r_move x None PCvq) in
       set_pc w1 t (WLoadRc (wl_set_old l old))
   | KWaitTo l => set_pc w t (WLoad7 (wl_set_old l old))
   | KSig | KBc =>
       let bc := match k with KBc => true | _ => false end in
       let '(wk, kp, allr) := if bc then sel_broadcast (recs w) (cvq w) else sel_signal (recs w) (cvq w) in
-      let w1 := touch_all w wk in
+      (* broadcast examines (flags, l_type) and unlinks every element; signal the first one and, if that is a native
+         reader, every element *)
+      let w1 := touch_queue w in
       let w2 := set_recs w1 (map_recs (fun x => r_move x (Some t) (PPriv t)) wk (recs w1)) in
       let old' := if is_nil (cvq w) then old else if is_nil kp then band old (bnot32 CV_NON_EMPTY) else old in
-      let kk := mk_kl bc old' wk allr (filter (fun p => is_mucv (recs w p)) wk) (negb bc) 0 in
+      let kk := mk_kl bc old' wk allr (filter (fun p => is_mucv (recs w p)) wk) (negb bc) 0
+                      (cvq w) (filter (fun p => is_rdr (recs w p)) (cvq w)) wk [] [] [] in
       set_pc (set_cvq w2 kp) t (after_todo kk)
   | KEnq n =>
-      let w1 := upd_rec (touch (set_cvq w (cvq w ++ [n_r n])) (n_r n)) (n_r n) (fun x => r_move x None PCvq) in
+      let w1 := upd_rec (touch (set_cvq (touch_queue w) (cvq w ++ [n_r n])) (n_r n)) (n_r n) (fun x => r_move x None PCvq) in
       set_pc w1 t (NEnqStore (nl_set_old n old))
   | KDeq n => set_pc w t (NDeqLoad (nl_set_old n old))
   end.
@@ -503,7 +548,7 @@ Definition st_WLoad8 (w : world) (t : nat) (l : wl) (c : choice) : world * ev :=
   let v := rcount (recs w t) in
   if w_rc l =? v then
     (* still in the cv waiter queue: remove *w, declare a timeout / cancellation *)
-    let w1 := if mem_id t (cvq w) then upd_rec (set_cvq w (remove_id t (cvq w))) t (fun x => r_move x (Some t) PNone) else w in
+    let w1 := if mem_id t (cvq w) then upd_rec (set_cvq (touch_queue w) (remove_id t (cvq w))) t (fun x => r_move x (Some t) PNone) else w in
     (set_pc w1 t (WRcLoad (wl_set_out l (w_so l))), EvLoad 208 (oid t) v)
   else (set_pc w t (WStoreW l), EvLoad 208 (oid t) v).
 Definition st_WRcLoad (w : world) (t : nat) (l : wl) (c : choice) : world * ev :=
@@ -562,7 +607,7 @@ Definition st_KStoreW (w : world) (t : nat) (k : kl) (c : choice) : world * ev :
   let site := if k_bc k then 404 else 306 in
   let w1 := set_cvw w v in
   match k_wake k with
-  | [] => (set_pc w1 t Idle, EvStore site OBJ_CV v)
+  | [] => (set_pc (set_wlog w1 ((t, k) :: wlog w1)) t Idle, EvStore site OBJ_CV v)     (* the queue was empty: nothing to wake *)
   | first :: _ =>
       (* wake_waiters: pmu = first_w->cv_mu if the first waiter is a native one *)
       let x := recs w first in
@@ -574,12 +619,13 @@ Definition st_KStoreW (w : world) (t : nat) (k : kl) (c : choice) : world * ev :
 Definition st_VLoad1 (w : world) (t : nat) (k : kl) (c : choice) : world * ev :=
   let old := muw w in
   match k_wake k with
-  | [] => (set_pc w t Idle, EvNone)
+  | [] => (set_pc (wake_done w t k) t Idle, EvNone)       (* unreachable: wake_waiters is called with a non-empty list *)
   | first :: rest =>
+      (* first_w->l_type->zero_to_acquire: an access to the first record *)
       let fca := has old (match l_type (recs w first) with Some m => zta_of m | None => 0 end) in
       if has old MU_ANY_LOCK && negb (has old MU_SPINLOCK) && (fca || (negb (is_nil rest) && negb (k_allr k)))
-      then (set_pc w t (VCas1 k old), EvLoad 101 OBJ_MU old)
-      else (set_pc w t (enter_wake_loop k), EvLoad 101 OBJ_MU old)
+      then (set_pc (touch w first) t (VCas1 k old), EvLoad 101 OBJ_MU old)
+      else (set_pc (wake_done (touch w first) t k) t (enter_wake_loop k), EvLoad 101 OBJ_MU old)
   end.
 Definition st_VCas1 (w : world) (t : nat) (k : kl) (old : Z) (c : choice) : world * ev :=
   let new := wake_waiters_cas1_new old in
@@ -590,28 +636,33 @@ Definition st_VCas1 (w : world) (t : nat) (k : kl) (old : Z) (c : choice) : worl
     let '(moved, stay, set_on) := xfer (recs w) fca (k_wake k) in
     let w1 := touch_all (set_muw w new) (k_wake k) in
     let w2 := set_muq (set_recs w1 (clear_cv_mu (recs w1) moved)) (muq w1 ++ moved) in
-    (set_pc (set_mspin w2 (Some t)) t (VLoad3 (kl_set_xfer k stay set_on)), EvCas 102 OBJ_MU old new true)
-  else (set_pc w t (enter_wake_loop k), EvCas 102 OBJ_MU old new false).
+    (set_pc (set_mspin w2 (Some t)) t (VLoad3 (kl_set_xfer k stay moved set_on)), EvCas 102 OBJ_MU old new true)
+  else (set_pc (wake_done w t k) t (enter_wake_loop k), EvCas 102 OBJ_MU old new false).
 Definition st_VLoad3 (w : world) (t : nat) (k : kl) (c : choice) : world * ev :=
   (set_pc w t (VCas2 k (muw w)), EvLoad 103 OBJ_MU (muw w)).
 Definition st_VCas2 (w : world) (t : nat) (k : kl) (old : Z) (c : choice) : world * ev :=
   let new := wake_waiters_cas2_new old (k_set k) in
   if muw w =? wake_waiters_cas2_old old
-  then (set_pc (set_mspin (set_muw w new) None) t (enter_wake_loop k), EvCas 104 OBJ_MU old new true)
+  then (set_pc (wake_done (set_mspin (set_muw w new) None) t k) t (enter_wake_loop k), EvCas 104 OBJ_MU old new true)
   else (set_pc w t (VLoad5 k), EvCas 104 OBJ_MU old new false).
 Definition st_VLoad5 (w : world) (t : nat) (k : kl) (c : choice) : world * ev :=
   (set_pc w t (VCas2 k (muw w)), EvLoad 105 OBJ_MU (muw w)).
 Definition st_VStore (w : world) (t : nat) (k : kl) (c : choice) : world * ev :=
   match k_wake k with
-  | [] => (set_pc w t Idle, EvNone)
+  | [] => (set_pc (wake_done w t k) t Idle, EvNone)       (* unreachable *)
   | p :: rest =>
-      (* p_sem = p_nw->sem; unlink p from to_wake_list; ATM_STORE_REL (&p_nw->waiting, 0) *)
+      (* p_sem = p_nw->sem (READ HERE, before the store: the repair of F3); next = nsync_dll_next_ (to_wake_list, p);
+         unlink p from to_wake_list (the links of its neighbours on that list); ATM_STORE_REL (&p_nw->waiting, 0).
+         After this store the code never accesses *p_nw again: the pc carries the semaphore's owner. *)
       let v := wake_waiters_store1_new in
-      (set_pc (upd_rec (touch w p) p (fun x => r_set_loc (r_set_waiting x v) PNone)) t (VV (kl_set_wake k rest) p), EvStore 106 (oid p) v)
+      let o := owner (recs w p) in
+      (set_pc (upd_rec (touch_all w (k_wake k)) p (fun x => r_set_loc (r_set_waiting x v) PNone)) t (VV (kl_wake_one k rest p) o),
+       EvStore 106 (oid p) v)
   end.
-Definition st_VV (w : world) (t : nat) (k : kl) (p : nat) (c : choice) : world * ev :=
-  let o := owner (recs w p) in
-  (set_pc (set_sem w o (sem w o + 1)) t (enter_wake_loop k), EvV p).
+(* nsync_mu_semaphore_v (p_sem): no access to the record *)
+Definition st_VV (w : world) (t : nat) (k : kl) (o : nat) (c : choice) : world * ev :=
+  let k' := kl_add_post k o in
+  (set_pc (wake_done (set_sem w o (sem w o + 1)) t k') t (enter_wake_loop k'), EvV o).
 (* ----- nsync_wait_n on the cv: cv_enqueue ----- *)
 Definition st_NEnqStore (w : world) (t : nat) (n : nl) (c : choice) : world * ev :=
   let v := cv_enqueue_store1_new in
@@ -648,7 +699,8 @@ Definition st_NSem (w : world) (t : nat) (n : nl) (c : choice) : world * ev := (
 Definition st_NDeqLoad (w : world) (t : nat) (n : nl) (c : choice) : world * ev :=
   let r := n_r n in
   let v := waiting (recs w r) in
-  let w0' := touch w r in
+  (* if not yet woken: the walk over pcv->waiters looking for &nw->q *)
+  let w0' := touch (if v =? 0 then w else touch_queue w) r in
   if (negb (v =? 0)) && cv_dequeue_store1_guard (if mem_id r (cvq w) then 1 else 0) then
     (* not yet woken and still on pcv->waiters: unlink it *)
     let w1 := upd_rec (set_cvq w0' (remove_id r (cvq w))) r (fun x => r_move x (Some t) PNone) in
@@ -717,7 +769,7 @@ Definition step_core (w : world) (t : nat) (c : choice) : world * ev :=
   | VCas2 k old => st_VCas2 w t k old c
   | VLoad5 k => st_VLoad5 w t k c
   | VStore k => st_VStore w t k c
-  | VV k p => st_VV w t k p c
+  | VV k o => st_VV w t k o c
   | NEnqStore n => st_NEnqStore w t n c
   | NEnqRel n => st_NEnqRel w t n c
   | NMuRel n => st_NMuRel w t n c
@@ -754,9 +806,14 @@ Definition step (w : world) (a : actor) (c : choice) : world * ev :=
       else (w, EvEnv false)
   | MuWakeSt r =>
       if mem_id r (mwake w) then
-        (set_mwake (upd_rec w r (fun x => r_set_loc (r_set_waiting x 0) PNone)) (remove_id r (mwake w)), EvEnv true)
+        (* nsync_mu_unlock_slow_: ATM_STORE_REL (&w->nw.waiting, 0); the nsync_mu_semaphore_v (&w->sem) that ALWAYS follows
+           is the [EnvV] step that pays the post owed from here on *)
+        let u := owner (recs w r) in
+        (set_owed (set_mwake (upd_rec w r (fun x => r_set_loc (r_set_waiting x 0) PNone)) (remove_id r (mwake w))) u (owed w u + 1), EvEnv true)
       else (w, EvEnv false)
-  | EnvV t => (set_sem w t (sem w t + 1), EvEnv true)
+  | EnvV t =>      (* a post of thread t's semaphore by mutex code: the one owed by an unlocker, if any; otherwise a stale post *)
+      let w1 := if 0 <? owed w t then set_owed w t (owed w t - 1) else w in
+      (set_sem w1 t (sem w1 t + 1), EvEnv true)
   | EnvRc r =>     (* only the waiter struct of a thread has a remove_count *)
       let x := recs w r in
       if Nat.ltb r (length (thr w)) && is_mucv x && rc_env_ok (t_pc (get w (owner x))) && negb (mem_id r (cvq w))
@@ -770,7 +827,7 @@ Definition step (w : world) (a : actor) (c : choice) : world * ev :=
 
 Definition init (progs : list (list op)) (clock0 : Z) (exp : option Z) : world :=
   mk_w 0 [] rec0 (length progs) (fun _ => 0) 0 [] [] None clock0 false exp
-       (map (fun p => mk_t Idle p None []) progs) 0.
+       (map (fun p => mk_t Idle p None []) progs) 0 (fun _ => 0) [].
 
 Definition run (w : world) (sched : list (actor * choice)) : world :=
   fold_left (fun w ac => fst (step w (fst ac) (snd ac))) sched w.
